@@ -162,6 +162,11 @@ basic::CommandSignature BuildNode::getSignature() const {
   for (auto* producer : getProducers()) {
     sig.combine(producer->getName());
   }
+  // The exclusion patterns determine which entries a directory node covers, a
+  // change must not keep using the listing computed with the old patterns.
+  for (const auto& pattern : exclusionPatterns.getValues()) {
+    sig.combine(pattern);
+  }
   return sig;
 }
 
